@@ -925,6 +925,26 @@ func (schema *Schema) Validate(ctx context.Context, opts ...ValidationOption) er
 	return err
 }
 
+// reachesItselfByComposition reports whether the schema is one of its own oneOf/anyOf/allOf/not
+// descendants. Checking a value against such a schema re-enters the schema with the same value
+// and never ends.
+func (schema *Schema) reachesItselfByComposition(path []*Schema) bool {
+	for _, ancestor := range path {
+		if ancestor == schema {
+			return true
+		}
+	}
+	path = append(path, schema)
+	for _, refs := range []SchemaRefs{schema.OneOf, schema.AnyOf, schema.AllOf, {schema.Not}} {
+		for _, ref := range refs {
+			if ref != nil && ref.Value != nil && ref.Value.reachesItselfByComposition(path) {
+				return true
+			}
+		}
+	}
+	return false
+}
+
 // returns the updated stack and an error if Schema does not comply with the OpenAPI spec.
 func (schema *Schema) validate(ctx context.Context, stack []*Schema) ([]*Schema, error) {
 	validationOpts := getValidationOptions(ctx)
@@ -938,6 +958,10 @@ func (schema *Schema) validate(ctx context.Context, stack []*Schema) ([]*Schema,
 
 	if schema.ReadOnly && schema.WriteOnly {
 		return stack, errors.New("a property MUST NOT be marked as both readOnly and writeOnly being true")
+	}
+
+	if schema.reachesItselfByComposition(nil) {
+		return stack, errors.New("schema includes itself through oneOf, anyOf, allOf or not: no value can be checked against it")
 	}
 
 	for _, item := range schema.OneOf {
